@@ -8,8 +8,8 @@ Transcribed from
   modules/util/string.cpp                 (Split, Strip)
   modules/http/server/server_imp.cpp      (onTcpReceived: accumulating buffer, `while readable > 0`; IsLastRequest)
 
-The tree described is the one with patches/C12-01..03 applied (`Cfg.fixed`); the three places
-the patches touch are parameterised by `Cfg` so that the behaviour of the unpatched code
+The tree described is /repo HEAD, which contains the fixes patches/C12-01..04 (`Cfg.fixed`); the
+three places patches 01-03 touch are parameterised by `Cfg` so that the behaviour of the unpatched code
 (`Cfg.orig`) is available for the counterexample theorems.
 
 How `std::string` positions are represented.  `parse` builds `std::string str(data, size)` and
